@@ -67,8 +67,12 @@ impl GenCrate {
             "[package]\nname = \"{name}\"\nversion = \"0.0.0\"\nedition = \"2024\"\n\n[dependencies]\ndust_dds = {{ path = \"{repo}/dds\" }}\n\n[profile.dev]\ndebug = false\nincremental = false\nopt-level = 0\n\n[workspace]\n"
         );
         std::fs::write(dir.join("Cargo.toml"), manifest).map_err(|e| e.to_string())?;
-        std::fs::copy(format!("{repo}/Cargo.lock"), dir.join("Cargo.lock"))
-            .map_err(|e| format!("cannot copy {repo}/Cargo.lock: {e}"))?;
+        // Cargo.lock is not tracked in the repository: a scratch worktree may lack it
+        let lock = [format!("{repo}/Cargo.lock"), "/repo/Cargo.lock".to_string()]
+            .into_iter()
+            .find(|p| std::path::Path::new(p).exists())
+            .ok_or_else(|| format!("no Cargo.lock in {repo} or /repo"))?;
+        std::fs::copy(&lock, dir.join("Cargo.lock")).map_err(|e| format!("cannot copy {lock}: {e}"))?;
         std::fs::write(src.join("support.rs"), SUPPORT_RS).map_err(|e| e.to_string())?;
         Ok(GenCrate { dir, name: name.to_string() })
     }
@@ -235,6 +239,11 @@ pub fn diag_key(d: &Diag) -> String {
         } else {
             out.push(c);
         }
+    }
+    // "for struct `_`" / "for enum `_`" / "for type `_`" name the same thing
+    let mut out = out;
+    for w in ["struct ", "enum ", "type ", "union ", "trait ", "value ", "module ", "crate "] {
+        out = out.replace(&format!("{w}`_`"), "`_`");
     }
     let out: String = out.chars().take(90).collect();
     if d.code.is_empty() { out } else { format!("{}:{}", d.code, out) }
